@@ -39,12 +39,15 @@ DECL_SPELLINGS = [
     '<?xml version = "1.0" encoding="%s"?>',
     "<?xml  version\t=\t'1.0'\n encoding='%s'?>",
 ]
-DECL_PLAIN = ['<?xml version="1.0"?>', "<?xml version='1.0' ?>", '<?xml version = "1.0" ?>']
+DECL_PLAIN = ['<?xml version="1.0"?>', "<?xml version='1.0' ?>", '<?xml version = "1.0" ?>', '<?xml\tversion="1.0"\n?>']
 META_SPELLINGS = [
     '<meta http-equiv="Content-Type" content="text/html; charset=%s" />',
     "<meta http-equiv='Content-Type' content='text/html; charset=%s'>",
     '<META HTTP-EQUIV="content-type" CONTENT="text/html;  charset=%s">',
     '<meta content="text/html; charset=%s" http-equiv="Content-Type">',
+    '<meta http-equiv=Content-Type content=text/html;charset=%s>',
+    '<meta id="m" http-equiv = "Content-Type" lang="en" content = "text/html; charset = %s" data-x="1">',
+    '<!-- <meta http-equiv="Content-Type" content="text/html; charset=koi8-r"> --><meta http-equiv="Content-Type" content="text/html; charset=%s">',
 ]
 
 
@@ -60,6 +63,8 @@ def build_doc(rec, rnd, variant):
     parts = []
     if rec["decl"] == "plain":
         parts.append(DECL_PLAIN[variant % len(DECL_PLAIN)])
+    elif rec["decl"] == "pi":
+        parts.append(['<?xml-stylesheet href="a.xsl" type="text/xsl"?>', '<?xmlfoo bar?>'][variant % 2])
     elif rec["decl"] != "none":
         parts.append(DECL_SPELLINGS[variant % len(DECL_SPELLINGS)] % rec["decl"])
     parts.append("\r\n<html><head>")
@@ -68,7 +73,7 @@ def build_doc(rec, rnd, variant):
         parts.append("".join('<link rel="stylesheet" href="/static/css/sheet-%03d.css" />\r\n' % k for k in range(40)))
     if rec["meta"] != "none":
         parts.append(META_SPELLINGS[variant % len(META_SPELLINGS)] % rec["meta"])
-    parts.append('</head>\r\n<body><input type="checkbox" tal:attributes="checked c" />')
+    parts.append('</head>\r\n<body><a encoding="koi8-r" href="#">k</a><input type="checkbox" tal:attributes="checked c" />')
     parts.append("<p>" + NONASCII[enc] + " ${t}</p></body></html>\r\n")
     return "".join(parts)
 
